@@ -5,6 +5,7 @@
 (* {ev:"tc", tc, ts, dur:{s,u}, back}   timecode -> delta -> timecode             *)
 (* {ev:"td", x:{s,u}, ts, tc, dur:{s,u}} delta -> timecode -> delta               *)
 (* {ev:"mono", ts, tc1, tc2, d1, d2}                                              *)
+(* {ev:"scale", x:{s,u}, num, denom, got, ok, has_prev, prev_got}  scale_timedelta, deltas ascending per (num, denom) *)
 EXTENDS IsoTime, TLC, Json, IOUtils
 TraceLog == ndJsonDeserialize(IOEnv.TRACE_FILE)
 VARIABLE l
@@ -29,7 +30,11 @@ CheckTd(t) ==
               /\ t.tc - RefDurToTc(t.dur, t.ts) >= 0
               /\ t.tc - RefDurToTc(t.dur, t.ts) <= 1)
 CheckMono(t) == Report("C19_TimecodeMonotone", (t.tc1 <= t.tc2) => C19_TimecodeMonotone(t.d1, t.d2))
+CheckScale(t) ==
+    /\ Report("C19_ScaleTimedelta", t.ok = 1 /\ C19_ScaleTimedelta(t.x, t.num, t.denom, t.got))
+    /\ Report("C19_ScaleMonotone", t.has_prev = 0 \/ C19_ScaleMonotone(t.prev_got, t.got))
 Check(t) ==
+    IF t.ev = "scale" THEN CheckScale(t) ELSE
     IF t.ev = "dur" THEN CheckDur(t)
     ELSE IF t.ev = "dt" THEN CheckDt(t)
     ELSE IF t.ev = "tc" THEN CheckTc(t)
